@@ -395,8 +395,14 @@ pub fn generate(tier: Tier, out: &Path, ncrates: usize, skip: &[usize]) {
     let main_rs = format!("// generated by ntgen – do not edit\nfn main() {{\n    let mut v: Vec<Box<dyn ntdrv::subject::Subject>> = vec![];\n{main_body}    v.sort_by_key(|s| s.idx());\n    ntdrv::run(v, \"{}\");\n}}\n", tier.name());
     write_if_changed(&out.join(&mainname).join("Cargo.toml"), &main_cargo);
     write_if_changed(&out.join(&mainname).join("src/main.rs"), &main_rs);
+    // the subject crates (the expansions + glue) are built with overflow checks and debug assertions ON: an arithmetic
+    // overflow or a debug-only statement in generated code is then as visible as it is in a user's dev/test build
+    let mut subject_profiles = String::new();
+    for m in members.iter().filter(|m| !m.ends_with("_main")) {
+        let _ = write!(subject_profiles, "[profile.release.package.{m}]\noverflow-checks = true\ndebug-assertions = true\n");
+    }
     let ws = format!(
-        "[workspace]\nresolver = \"2\"\nmembers = [{}]\n\n[profile.release]\nopt-level = {}\ndebug = 0\ncodegen-units = 16\nincremental = false\n\n[profile.release.package.ntdrv]\nopt-level = 3\n[profile.release.package.ntcore]\nopt-level = 3\n[profile.release.package.ulib]\nopt-level = 3\n",
+        "[workspace]\nresolver = \"2\"\nmembers = [{}]\n\n{subject_profiles}[profile.release]\nopt-level = {}\ndebug = 0\ncodegen-units = 16\nincremental = false\n\n[profile.release.package.ntdrv]\nopt-level = 3\n[profile.release.package.ntcore]\nopt-level = 3\n[profile.release.package.ulib]\nopt-level = 3\n",
         members.iter().map(|m| format!("\"{m}\"")).collect::<Vec<_>>().join(", "),
         if tier == Tier::Quick { 0 } else { 1 }
     );
